@@ -197,3 +197,13 @@ package eval
 //@   inline 8 2
 //@   callsite[C01] IsClassType a_t != nil
 //@   witness site:call.0#0 "a = {name: 'x'}\ncase a\nin {name:,"
+
+//@ # ---- C24: the condition look-ahead of if/unless must not record call points ----
+//@ # It evaluates the condition on a copy of the parser only to find narrowing candidates; the
+//@ # condition is evaluated again for real afterwards.  Every evaluator call made here records the
+//@ # calls it meets a second time (known finding, see /verif/known_findings.txt).
+//@ func (*ti/eval.IfUnless).getBackupContext
+//@   sitesonly
+//@   inline 4 1
+//@   callsite[C24] Eval false
+//@   witness site:call.0#0 "def a(x)\n  x\nend\n\nif a(1) == 2\n  1\nend\n" args "--llm-nav --target=a" expect "total callers: 2"
